@@ -55,11 +55,13 @@ def confirm(name):
         tail = os_.strip().split("\n")[-1]
         failed = sorted(set(re.findall(r"^FAILED (\S+)", os_, re.M)))
         if failed:
-            # tests/vsg/file_timestamp and friends race under xdist on the unchanged tree too: re-run the failures serially
-            rcr, orr = sh("/venv/bin/python -m pytest -q -p no:cacheprovider --timeout=900 %s 2>&1 | tail -3" % " ".join(failed), cwd=wt, env=env, timeout=3600)
-            rerun = orr.strip().split("\n")[-1]
-            if rcr == 0:
-                tail = tail.replace(" failed,", " failed-under-xdist-only,") + "  [%s; serial re-run: %s]" % (", ".join(failed), rerun)
+            # tests the baseline itself lists as flaky or always failing (/root/.vp/BASELINE.json) do not count
+            base = json.load(open("/root/.vp/BASELINE.json"))
+            unstable = set(base.get("flaky", [])) | set(base.get("always_fail", []))
+            norm = lambda t: t.replace(".py::", ".", 1).replace("/", ".")
+            real = [t for t in failed if norm(t) not in unstable]
+            if not real:
+                tail = tail.replace(" failed,", " failed-but-listed-flaky-in-BASELINE,") + "  [%s]" % ", ".join(failed)
         m["confirmed"] = {
             "demo_without_change_exit": rc0,
             "patch_applies": rca == 0,
